@@ -7,7 +7,12 @@
      - Snapshot changes nothing; the logged projection is the copy the revision has to restore;
      - Revert(i): the projection equals the copy saved by the Snapshot of revision i, the journal is cut back to
        its length at that Snapshot, and the call does not panic;
-     - Seal/Redo: replaying the published logs on the parent state gives the projection of the executed block.
+     - Seal: the block is finished (MergeChangeLogs, Finalise), replayed (RebuildAll on a manager that only has the
+       parent state), saved and re-read through a fresh manager on the new block, and built once more by a manager
+       that executes ONLY the surviving setter calls (no snapshot, no revert).  Demanded: Finalise changes no getter
+       but the roots; the block - every getter, all four roots, the published logs with versions and hashes - is
+       the block of that other run (reverted work leaves no trace, also not when the tries are flushed); the replay
+       gives the executed projection, roots included; the re-read state is the executed one.
    Deviations of the code listed in known_findings.txt (AllowedDev) are accepted only where the correct outcome
    does not match and only with exactly the outcome the deviation predicts (JournalOps.UndoFrom / Panics with
    Dv = AllowedDev run on the spec's own journal); they are reported through UseDev. *)
@@ -18,8 +23,10 @@ VARIABLES st,       \* the projection after the last accepted line
           journal,  \* Seq([a, k, old, new, n]) built from the setters seen, old values taken from st
           ver,      \* [<<account, log type>> -> number of entries ever journalled]
           revs,     \* Seq([id, idx, copy])  live revisions with the projection saved at Snapshot
-          zero      \* the zero hash as the code prints it
-tvars == <<st, base, journal, ver, revs, zero, l>>
+          zero,     \* the zero hash as the code prints it
+          bent,     \* deviations that were accepted at a Revert of this behaviour (st is not the ideal state then)
+          ghost     \* {<<account, root>>}: JournalOps.GhostsOf of everything reverted so far
+tvars == <<st, base, journal, ver, revs, zero, bent, ghost, l>>
 
 AllTypes == {"bal", "sto", "code", "sui", "ev", "ax", "asup", "afr", "aid", "eq", "cand", "pst", "votes", "vf", "sig"}
 \* the code may have been repaired for some of the listed deviations: any subset of them may be in effect
@@ -31,7 +38,7 @@ EvPanic(n) == l <= Len(Trace) /\ Trace[l].ev = n /\ "panic" \in DOMAIN Trace[l] 
 TReset == /\ Ev("reset")
           /\ st' = E.obs /\ base' = E.obs /\ zero' = E.zero
           /\ E.nlogs = 0
-          /\ journal' = <<>> /\ revs' = <<>>
+          /\ journal' = <<>> /\ revs' = <<>> /\ bent' = {} /\ ghost' = {}
           /\ ver' = [p \in (DOMAIN E.obs) \X AllTypes |-> 0]
 
 TSet == /\ Ev("Set")
@@ -42,24 +49,27 @@ TSet == /\ Ev("Set")
            /\ journal' = Append(journal, [a |-> a, k |-> k, old |-> OldOf(st[a], k), new |-> v, n |-> ver[<<a, t>>] + 1])
            /\ ver' = [ver EXCEPT ![<<a, t>>] = @ + 1]
         /\ st' = E.obs
-        /\ UNCHANGED <<base, revs, zero>>
+        /\ ghost' = GhostsAfterSet(ghost, E.a[1], E.a[2])
+        /\ UNCHANGED <<base, revs, zero, bent>>
 
 TSnapshot == /\ Ev("Snapshot")
              /\ E.obs = st /\ E.nlogs = Len(journal)
              /\ \A i \in 1..Len(revs) : revs[i].id < E.id
              /\ revs' = Append(revs, [id |-> E.id, idx |-> Len(journal), copy |-> st])
-             /\ UNCHANGED <<st, base, journal, ver, zero>>
+             /\ UNCHANGED <<st, base, journal, ver, zero, bent, ghost>>
 
 TRevert == /\ Ev("Revert")
            /\ LET i == E.a[1] IN
               /\ i \in 1..Len(revs)
               /\ E.id = revs[i].id
               /\ E.nlogs = revs[i].idx
-              /\ \/ E.obs = revs[i].copy                                        \* what the property demands
+              /\ \/ E.obs = revs[i].copy /\ bent' = bent                        \* what the property demands
                  \/ /\ E.obs # revs[i].copy                                   \* listed deviations, exactly as predicted
                     /\ LET Ds == {D \in SUBSET (AllowedDev \cap UndoDevs) : E.obs = UndoFrom(st, journal, revs[i].idx, base, zero, D)} IN
                        /\ Ds # {}
                        /\ \A d \in Smallest(Ds) : UseDev(d)
+                       /\ bent' = bent \cup Smallest(Ds)
+              /\ ghost' = ghost \cup GhostsOf(journal, revs[i].idx)
               /\ journal' = SubSeq(journal, 1, revs[i].idx)
               /\ revs' = SubSeq(revs, 1, i - 1)
            /\ st' = E.obs
@@ -73,26 +83,65 @@ TRevertPanic == /\ EvPanic("Revert")
                    /\ Panics(journal, revs[i].idx, AllowedDev)
                    /\ "Dev_RevertVersionGapPanics" \in AllowedDev /\ HasGap(journal, revs[i].idx) => UseDev("Dev_RevertVersionGapPanics")
                    /\ "Dev_UndoFirstEquityPanics" \in AllowedDev /\ HasNilEquity(journal, revs[i].idx) => UseDev("Dev_UndoFirstEquityPanics")
-                /\ UNCHANGED <<st, base, journal, ver, revs, zero>>
+                /\ UNCHANGED <<st, base, journal, ver, revs, zero, bent, ghost>>
 
-\* the block is sealed (MergeChangeLogs, Finalise) and its published logs are replayed on the parent state
-\* (RebuildAll, Finalise).  Finalise changes no getter except the four roots; the replayed projection - roots included -
-\* must be the projection of the executed block.
-Roots == {"rs", "rac", "rai", "req"}
-NoRoots(o) == [a \in DOMAIN o |-> [f \in DOMAIN o[a] \ Roots |-> o[a][f]]]
+\* the block is sealed (MergeChangeLogs, Finalise), replayed on the parent state (RebuildAll, Finalise), saved and
+\* re-read, and built a second time from the surviving setter calls only.
+Drop(o, F) == [a \in DOMAIN o |-> [f \in DOMAIN o[a] \ F |-> o[a][f]]]
+NoRoots(o) == Drop(o, Roots)
+RootLog(f) == CASE f = "rs" -> "StorageRootLog" [] f = "rac" -> "AssetCodeRootLog" [] f = "rai" -> "AssetIdRootLog" [] f = "req" -> "EquityRootLog"
+\* deviations after which st is not the state the surviving writes produce (the Seal comparisons need that state)
+StateDevs == {"Dev_UndoCodeDropsPreviousCode", "Dev_UndoSuicideShallow"}
+\* ... Dev_UndoEventNoop only leaves reverted events in GetEvents()
+EvMask == IF "Dev_UndoEventNoop" \in bent THEN {"ev"} ELSE {}
+\* the replay differs in content: accepted only as a listed merge / publish deviation, exactly as predicted
+RedoDeviates(D0) ==
+  LET Ds == {D \in (SUBSET (AllowedDev \cap RedoDevs)) \ D0 : NoRoots(E.redo) = NoRoots(Redone(base, journal, zero, D))} IN
+  /\ Ds # {}
+  /\ \A d \in Smallest(Ds) : UseDev(d)
+SealStrict ==
+  LET pairs == {p \in (DOMAIN E.obs) \X Roots : p[2] \in DOMAIN E.obs[p[1]]}
+      RootDiff == {p \in pairs : E.obs[p[1]][p[2]] # E.clean[p[1]][p[2]]}
+      extra(x) == \E p \in RootDiff : x.a = p[1] /\ x.t = RootLog(p[2])
+      notextra(x) == ~extra(x)
+      \* the executed projection with the roots of RootDiff as the other run has them
+      Ideal == [a \in DOMAIN E.obs |-> [f \in DOMAIN E.obs[a] |-> IF <<a, f>> \in RootDiff THEN E.clean[a][f] ELSE E.obs[a][f]]]
+  IN
+  \* the other run executed exactly the surviving entries of the spec's journal
+  /\ E.cerr = ""
+  /\ E.cleanops = [i \in 1..Len(journal) |-> <<journal[i].a, journal[i].k, journal[i].new>>]
+  \* reverted work leaves no trace: same getters ...
+  /\ Drop(E.clean, Roots \cup EvMask) = Drop(E.obs, Roots \cup EvMask)
+  \* ... same roots and same published logs (type, version, hash; in order)
+  /\ \/ RootDiff = {} /\ E.pub = E.cleanpub
+     \/ /\ RootDiff # {}                                                      \* listed deviation, exactly as predicted
+        /\ "Dev_RevertedCreationLeavesEmptyRoot" \in AllowedDev
+        /\ RootDiff \subseteq ghost
+        /\ \A p \in RootDiff : E.obs[p[1]][p[2]] = E.emptyroot /\ E.clean[p[1]][p[2]] = zero
+        /\ SelectSeq(E.pub, notextra) = E.cleanpub
+        /\ \A p \in RootDiff : \E i \in 1..Len(E.pub) : E.pub[i].a = p[1] /\ E.pub[i].t = RootLog(p[2])
+        /\ UseDev("Dev_RevertedCreationLeavesEmptyRoot")
+  \* what is saved is what was executed
+  /\ E.serr = ""
+  /\ Drop(E.saved, Volatile) = Drop(E.obs, Volatile)
+  \* the replay of the published logs gives the executed state, roots included
+  /\ \/ Drop(E.redo, EvMask) = Drop(Ideal, EvMask)
+     \/ /\ Drop(E.redo, Roots \cup EvMask) # Drop(E.obs, Roots \cup EvMask)
+        /\ RedoDeviates({{}})
+\* st was bent by a listed undo deviation: the other run and the re-read cannot be compared with it; the replay still has
+\* to be what the spec's journal predicts
+SealBent == \/ E.redo = E.obs
+            \/ E.redo # E.obs /\ RedoDeviates({})
 TSeal == /\ Ev("Seal")
          /\ E.err = "" /\ E.rerr = ""
          /\ NoRoots(E.obs) = NoRoots(st)
-         /\ \/ E.redo = E.obs                                                        \* what the property demands
-            \/ /\ E.redo # E.obs                                                     \* listed deviations, exactly as predicted
-               /\ LET Ds == {D \in SUBSET (AllowedDev \cap RedoDevs) : NoRoots(E.redo) = NoRoots(Redone(base, journal, zero, D))} IN
-                  /\ Ds # {}
-                  /\ \A d \in Smallest(Ds) : UseDev(d)
+         /\ IF bent \cap StateDevs = {} THEN SealStrict ELSE SealBent
          /\ st' = E.obs
-         /\ UNCHANGED <<base, journal, ver, revs, zero>>
+         /\ UNCHANGED <<base, journal, ver, revs, zero, bent, ghost>>
 
 TraceNext == TReset \/ TSet \/ TSnapshot \/ TRevert \/ TRevertPanic \/ TSeal
-TraceSpec == l = 1 /\ st = <<>> /\ base = <<>> /\ journal = <<>> /\ ver = <<>> /\ revs = <<>> /\ zero = "" /\ [][TraceNext]_tvars
+TraceSpec == l = 1 /\ st = <<>> /\ base = <<>> /\ journal = <<>> /\ ver = <<>> /\ revs = <<>> /\ zero = "" /\ bent = {} /\ ghost = {}
+             /\ [][TraceNext]_tvars
 \* state invariants evaluated on every prefix of every real trace
 TraceRevsOK == \A i \in 1..Len(revs) : revs[i].idx <= Len(journal) /\ \A j \in 1..Len(revs) : i < j => revs[i].idx <= revs[j].idx
 ====
